@@ -75,6 +75,18 @@ def run(rep, tier, rng):
             for npts in range(0, hi + 1):
                 cases.append([3] + shapes.grid_ctor(rng, code, nparts, npts))
                 rep.dist("grid")
+    # counts beyond 1024 (the reader's pre-sizing cap, a natural block size) for every kind of count: parts, rings,
+    # patches, points of a multipoint, points of one part
+    for code in shapes.ALL_CODES:
+        if code in shapes.POINT_CODES:
+            continue
+        for nparts, npts in (((1025, 1), (1, 1030)) if code not in shapes.MULTIPOINT_CODES else ((1, 1026),)):
+            if code in shapes.POLYLINE_CODES and npts < 2:
+                npts = 2
+            if tier != "thorough" and code not in (8, 3, 15, 31, 28):
+                continue
+            cases.append([3] + shapes.grid_ctor(rng, code, nparts, npts))
+            rep.dist("beyond_1024")
     nrand = 3000 if tier == "thorough" else 400
     for i in range(nrand):
         code = rng.choice(shapes.ALL_CODES)
@@ -83,7 +95,7 @@ def run(rep, tier, rng):
                                            max_parts=25 if big else 5, max_pts=30 if big else 7))
         rep.dist("random_large" if big else "random")
     rep.cov["rule"] = ("enc cases: dense grid (13 types x parts 0..%d x points per part 0..%d) plus %d random constructor "
-                       "calls (20%% large: up to 25 parts x 30 points); shapes are built by the public constructors, then "
+                       "calls (20%% large: up to 25 parts x 30 points) plus shapes with more than 1024 parts / rings / patches / points; shapes are built by the public constructors, then "
                        "size_in_bytes() and write_to(chunk-logging sink) are called through WritableShape; non-trivial = "
                        "constructor accepted the input and the result is distinct" % (hi, hi, nrand))
     rep.sample({"case": cases[40], "meaning": "kind 3 (enc) + constructor spec"})
